@@ -14,7 +14,8 @@ PATH = os.path.join(VERIF, 'known_findings.json')
 # detail keys that may be part of a mechanism
 MECH_KEYS = ('exc', 'func', 'file', 'kind', 'direction', 'hot_slower', 'zero_work', 'substep',
              'started_at_zero', 'two_ingests_overlap', 'dist', 'runtime_zero', 'op',
-             'machine_state', 'ingest', 'column', 'paused', 'stage', 'reason', 'pairing_family')
+             'machine_state', 'ingest', 'column', 'paused', 'stage', 'reason', 'pairing_family',
+             'below_zero', 'admissions_had_room', 'ingests_overlapped', 'deposits_as_specified')
 
 
 def load():
